@@ -62,12 +62,18 @@ def make_input(torch, shape, dim):
     return ((lane << LB) | (i << SH) | i).contiguous(), lane.contiguous()
 
 
-def run_interval(ctx, shape, dim, fn, order, inplace):
-    """One execution of cumops/cumprod/cummul(+_) over the interval monoid; returns a trace."""
+def run_interval(ctx, shape, dim, fn, order, inplace, layout="contig"):
+    """One execution of cumops/cumprod/cummul(+_) over the interval monoid; returns a trace.
+    layout "strided": the input is a non-contiguous view (every second element of a larger buffer)."""
     import torch
     pp = pypose()
     L = shape[dim]
     x, lane = make_input(torch, shape, dim)
+    if layout == "strided":
+        big = torch.full(tuple(shape) + (2,), -7, dtype=torch.int64)
+        big[..., 0] = x
+        x = big[..., 0]
+        assert not x.is_contiguous() or x.numel() <= 1
     mon = Monoid(torch, dim)
 
     class W(torch.Tensor):
@@ -80,7 +86,7 @@ def run_interval(ctx, shape, dim, fn, order, inplace):
 
     orig = x.clone()
     cfg = {"L": L, "order": order, "fn": fn + ("_" if inplace else ""), "inplace": inplace,
-           "dim": dim, "shape": list(shape), "kind": "interval"}
+           "dim": dim, "shape": list(shape), "kind": "interval", "layout": layout}
     f = getattr(pp, cfg["fn"])
     strides = []
     try:
@@ -163,15 +169,19 @@ def same_transform(torch, a, b, ltype):
     return bool(sign_ok and rest.all())
 
 
-def run_lie(ctx, ltype, L, batch, dim_first, fn, order, inplace, dtype):
+def run_lie(ctx, ltype, L, batch, dim_first, fn, order, inplace, dtype, layout="contig"):
     import torch
     pp = pypose()
     n = L * batch
-    X = lattice(ctx.rng, torch, ltype, n, dtype)
-    X = X.lview(L, batch) if dim_first else X.lview(batch, L)
+    if layout == "strided":      # a non-contiguous LieTensor view: every second item of a longer sequence
+        X = lattice(ctx.rng, torch, ltype, 2 * n, dtype)
+        X = X.lview(2 * L, batch)[::2] if dim_first else X.lview(batch, 2 * L)[:, ::2]
+    else:
+        X = lattice(ctx.rng, torch, ltype, n, dtype)
+        X = X.lview(L, batch) if dim_first else X.lview(batch, L)
     dim = 0 if dim_first else 1
     cfg = {"L": L, "order": order, "fn": fn + ("_" if inplace else ""), "inplace": inplace, "dim": dim,
-           "shape": list(X.shape), "kind": "lie", "ltype": ltype, "dtype": str(dtype)}
+           "shape": list(X.shape), "kind": "lie", "ltype": ltype, "dtype": str(dtype), "layout": layout}
     orig = X.clone()
     try:
         method = ctx.rng.random() < 0.5
@@ -198,6 +208,45 @@ def run_lie(ctx, ltype, L, batch, dim_first, fn, order, inplace, dtype):
            "untouched": bool(torch.equal(X.tensor(), orig.tensor())),
            "aliased": bool(out.data_ptr() == X.data_ptr()),
            "input_is_result": bool(torch.equal(X.tensor(), out.tensor()))}]
+    return {"cfg": cfg, "ev": ev}
+
+
+def run_plainmat(ctx, L, k, batch, fn, order, inplace, dtype, layout="contig"):
+    """cumprod (matrix product @) / cummul (element-wise *) on PLAIN tensors of small integer matrices: the two differ
+    there (on LieTensors both are the group product).  Exact in floating point: entries stay small integers."""
+    import torch
+    pp = pypose()
+    rng = ctx.rng
+    g = torch.Generator().manual_seed(rng.randint(0, 2 ** 31))
+    shape = (batch, L, k, k)
+    M = torch.randint(-1, 2, shape, generator=g).to(dtype)
+    if fn == "cumprod":      # unipotent / signed permutation-like factors keep the products bounded
+        M = torch.eye(k, dtype=dtype).expand(shape).clone() + torch.triu(M, 1)
+        M = M * torch.tensor([1.0, -1.0], dtype=dtype)[torch.randint(0, 2, (batch, L, 1, 1), generator=g)]
+        M = M.transpose(-1, -2).contiguous() if rng.random() < 0.5 else M
+    if layout == "strided":
+        big = torch.zeros((batch, 2 * L, k, k), dtype=dtype)
+        big[:, ::2] = M
+        X = big[:, ::2]
+    else:
+        X = M.clone()
+    cfg = {"L": L, "order": order, "fn": fn + ("_" if inplace else ""), "inplace": inplace, "dim": 1,
+           "shape": list(shape), "kind": "plainmat", "ltype": "none", "dtype": str(dtype), "layout": layout}
+    orig = X.clone()
+    try:
+        out = getattr(pp, cfg["fn"])(X, 1, left=(order == "left"))
+    except Exception as ex:
+        return {"cfg": cfg, "ev": [{"act": "raise", "msg": repr(ex)[:200]}]}
+    op = (lambda a, b: a @ b) if fn == "cumprod" else (lambda a, b: a * b)
+    acc, fold = orig[:, 0], [orig[:, 0]]
+    for i in range(1, L):
+        acc = op(orig[:, i], acc) if order == "left" else op(acc, orig[:, i])
+        fold.append(acc)
+    want = torch.stack(fold, 1)
+    ev = [{"act": "liedone", "equal_fold": bool(out.shape == want.shape and torch.equal(out, want)),
+           "ltype_kept": bool(out.dtype == dtype and not isinstance(out, pp.LieTensor)),
+           "untouched": bool(torch.equal(X, orig)), "aliased": bool(out.data_ptr() == X.data_ptr()),
+           "input_is_result": bool(out.shape == X.shape and torch.equal(X, out))}]
     return {"cfg": cfg, "ev": ev}
 
 
@@ -267,6 +316,25 @@ def gen_traces(ctx):
                                      rng.random() < 0.5, dtype))
                         if fn == "cumops":      # both forms (method / function), out-of-place: the input must stay untouched
                             jobs.append(("lie", ltype, L, rng.randint(1, 3), rng.random() < 0.5, fn, order, False, dtype))
+    # non-contiguous inputs (strided views): the in-place variants must overwrite the view, the others leave it alone
+    for L in ([1, 2, 3, 5, 8, 13, 64] if q else [1, 2, 3, 4, 5, 7, 8, 9, 16, 17, 33, 64, 100]):
+        for f, o in fns:
+            for ip in (False, True):
+                jobs.append(("interval", (L, rng.randint(1, 3)), 0, f, o, ip, "strided"))
+                jobs.append(("interval", (rng.randint(1, 3), L), 1, f, o, ip, "strided"))
+    for ltype in ("SO3", "SE3", "RxSO3", "Sim3"):
+        for L in ([1, 2, 5, 9] if q else [1, 2, 3, 5, 8, 9, 17, 33]):
+            for fn in ("cumprod", "cummul", "cumops"):
+                for ip in (False, True):
+                    jobs.append(("lie", ltype, L, rng.randint(1, 3), rng.random() < 0.5, fn, rng.choice(["left", "right"]), ip,
+                                 rng.choice([torch.float64, torch.float32]), "strided"))
+    # plain matrix tensors: cumprod is the matrix product, cummul the element-wise product
+    for L in ([1, 2, 3, 4, 7, 12] if q else [1, 2, 3, 4, 5, 6, 7, 8, 9, 12, 16, 17, 24]):
+        for fn in ("cumprod", "cummul"):
+            for order in ("left", "right"):
+                for ip in (False, True):
+                    jobs.append(("plainmat", L, rng.choice([2, 3]), rng.randint(1, 3), fn, order, ip,
+                                 rng.choice([torch.float64, torch.float32]), rng.choice(["contig", "contig", "strided"])))
     rng.shuffle(jobs)
     # a few long scans right at the start, before any medium-sized one (history dependence across calls)
     early = [("interval", (rng.randint(2100, 4096),), 0) + rng.choice(fns) + (False,) for _ in range(3)]
@@ -275,6 +343,8 @@ def gen_traces(ctx):
     for j in jobs:
         if j[0] == "interval":
             traces.append(run_interval(ctx, *j[1:]))
+        elif j[0] == "plainmat":
+            traces.append(run_plainmat(ctx, *j[1:]))
         else:
             traces.append(run_lie(ctx, *j[1:]))
     return traces
@@ -284,7 +354,7 @@ def judge(ctx, traces, verdicts):
     for tr, v in zip(traces, verdicts):
         c = tr["cfg"]
         ctx.cover("%s:%s:%s:L=%d:dim=%d:%s:%s" % (c["kind"], c["fn"], c["order"], c["L"], c["dim"], c["shape"],
-                                                  c.get("ltype", "")))
+                                                  c.get("ltype", "") + ":" + c.get("layout", "contig")))
         if v != "ok":
             clause, at = v.split("@")
             e = tr["ev"][int(at) - 1]
@@ -326,11 +396,15 @@ def run(ctx):
             if v != "ok":
                 ctx.violation("cumfold/%s/%s" % (e0["ty"], v.split("@")[0]), "replayed on the current tree: still differs", {"trace": tr})
             return
+        lay = c.get("layout", "contig")
         if c["kind"] == "interval":
-            tr = run_interval(ctx, tuple(c["shape"]), c["dim"], c["fn"].rstrip("_"), c["order"], c["inplace"])
+            tr = run_interval(ctx, tuple(c["shape"]), c["dim"], c["fn"].rstrip("_"), c["order"], c["inplace"], lay)
+        elif c["kind"] == "plainmat":
+            tr = run_plainmat(ctx, c["L"], c["shape"][-1], c["shape"][0], c["fn"].rstrip("_"), c["order"], c["inplace"],
+                              torch.float64 if "64" in c["dtype"] else torch.float32, lay)
         else:
             tr = run_lie(ctx, c["ltype"], c["L"], 2, c["dim"] == 0, c["fn"].rstrip("_"), c["order"], c["inplace"],
-                         torch.float64 if "64" in c["dtype"] else torch.float32)
+                         torch.float64 if "64" in c["dtype"] else torch.float32, lay)
         judge(ctx, [tr], ctx.validate("ScanTrace", "ScanTrace.cfg", [tr], "replay"))
         return
     traces = gen_traces(ctx)
